@@ -96,6 +96,19 @@ def scenario(ch, cfg):
     for n, _, ar in defs:
         if twin[n].fn.arity != ar:
             raise HarnessError(f"arity of {n} inferred as {twin[n].fn.arity}, workload assumes {ar}")
+    # optional chain client -> server -> backend: the server holds h::.cli(backend); a handle object is then a remote value
+    chain = ch.draw(5, "chain") == 0
+    if chain:
+        from sim.klnode import Node
+        stats["probe_chain_backend"] += 1
+        backend = Node(w, net, "B")
+        ipc._ipc_tcp_server = ipc.TcpServerHandler()      # one listener object per simulated process
+        bb = backend.on_klongloop(lambda: backend.klong(".srv(8889)"))
+        w.run(until=lambda: 8889 in net.listeners, max_steps=3000)
+        if 8889 not in net.listeners:
+            raise HarnessError(f"backend did not start: {bb}")
+        ipc._ipc_tcp_server = ipc.TcpServerHandler()
+        boot = boot + ["h::.cli(8889)"]
     env.start_server(src=boot)
     w.run(until=lambda: env.listener_up(), max_steps=3000)
     violations = []
@@ -293,6 +306,13 @@ def scenario(ch, cfg):
                     src, twin_src = ':_f("1%0")', ":_1%0"
                 stats["probe_undefined_transported"] += 1
                 both("undefined-test", src, lambda twin_src=twin_src: twin(twin_src))
+            elif k == 8 and chain and ch.draw(2, "usechain"):
+                # the server-side value is itself a remote handle: f(:h) must give a monadic proxy, calls go down the chain
+                if "h" not in state["proxies"]:
+                    both("proxy-create", "qh::f(:h)", lambda: twin("{x}"))
+                    state["proxies"]["h"] = "qh"
+                a_, b_ = ch.draw(50, "cha"), ch.draw(50, "chb")
+                both("chain-call", f'qh("{a_}+{b_}")', lambda a_=a_, b_=b_: twin(f"{a_}+{b_}"))
             elif k == 8:    # redefine a server function with another arity, fetch a proxy again, call it
                 name = ch.pick(sorted(n for n in state["fns"] if n in ("inc", "add", "tri")) or ["inc"], "rname")
                 if name not in state["fns"]:
